@@ -457,18 +457,34 @@ void simns_add_serv(const char *name, const char *proto, int port)
     servs[nservs].s_name = snames[nservs]; servs[nservs].s_aliases = noalias; servs[nservs].s_port = htons((uint16_t)port); servs[nservs].s_proto = sprotos[nservs];
     nservs++;
 }
+/* as in a real libc, every function has ONE result object: a hit overwrites it, so a pointer kept from an earlier call reads the later
+   answer; a miss leaves rubbish in it (legal: the contents are unspecified after any later call) */
+static struct protoent proto_result; static char proto_result_name[24];
+static struct servent serv_result; static char serv_result_name[24], serv_result_proto[8];
 struct protoent *sim_getprotobyname(const char *name)
 {
     sim_step(); simns_lookups++;
-    for (int i = 0; i < nprotos; i++) if (!strcmp(pnames[i], name)) { tr_printf("getprotobyname %.20s -> %d", name, protos[i].p_proto); return &protos[i]; }
+    for (int i = 0; i < nprotos; i++) if (!strcmp(pnames[i], name)) {
+        tr_printf("getprotobyname %.20s -> %d", name, protos[i].p_proto);
+        snprintf(proto_result_name, sizeof(proto_result_name), "%s", pnames[i]);
+        proto_result = protos[i]; proto_result.p_name = proto_result_name;
+        return &proto_result;
+    }
     tr_printf("getprotobyname %.20s -> NULL", name);
+    snprintf(proto_result_name, sizeof(proto_result_name), "?stale?"); proto_result.p_proto = -7777;
     return NULL;
 }
 struct servent *sim_getservbyname(const char *name, const char *proto)
 {
     sim_step(); simns_lookups++;
-    for (int i = 0; i < nservs; i++) if (!strcmp(snames[i], name) && (!proto || !strcmp(sprotos[i], proto))) { tr_printf("getservbyname %.20s/%s -> %d", name, proto ? proto : "*", ntohs((uint16_t)servs[i].s_port)); return &servs[i]; }
+    for (int i = 0; i < nservs; i++) if (!strcmp(snames[i], name) && (!proto || !strcmp(sprotos[i], proto))) {
+        tr_printf("getservbyname %.20s/%s -> %d", name, proto ? proto : "*", ntohs((uint16_t)servs[i].s_port));
+        snprintf(serv_result_name, sizeof(serv_result_name), "%s", snames[i]); snprintf(serv_result_proto, sizeof(serv_result_proto), "%s", sprotos[i]);
+        serv_result = servs[i]; serv_result.s_name = serv_result_name; serv_result.s_proto = serv_result_proto;
+        return &serv_result;
+    }
     tr_printf("getservbyname %.20s/%s -> NULL", name, proto ? proto : "*");
+    snprintf(serv_result_name, sizeof(serv_result_name), "?stale?"); snprintf(serv_result_proto, sizeof(serv_result_proto), "?old?"); serv_result.s_port = htons(7);
     return NULL;
 }
 struct hostent *sim_gethostbyname(const char *name) { (void)name; sim_step(); h_errno = HOST_NOT_FOUND; return NULL; }
